@@ -130,4 +130,390 @@ theorem into_request {p : Req.Parser} {r : Request} {left : Bytes}
   · cases h
   · cases h
 
+/-! ## 2. The unread bytes are the unread suffix of everything fed -/
+
+/-- The bytes the caller handed to the parser during an operation history (`parse` calls only). -/
+def fedBytes : List Op → Bytes
+  | [] => []
+  | .parse new _ :: t => new ++ fedBytes t
+  | _ :: t => fedBytes t
+
+/-- Only `parse` touches the unparsed protocol bytes. -/
+theorem raw_frame (p : Str.Parser) (op : Op) (h : ∀ new dest, op ≠ .parse new dest) :
+    (applyOp p op).raw = p.raw := by
+  cases op with
+  | parse new dest => exact absurd rfl (h new dest)
+  | consumeStream amt => rfl
+  | compress => rfl
+  | consumeOutput amt => rfl
+  | setStream st =>
+    simp only [applyOp]
+    cases hr : p.setStream st with
+    | ok p' =>
+      rcases Str.setStream_ok_cases hr with ⟨-, rfl⟩ | ⟨-, rfl, -⟩
+      · rfl
+      · rfl
+    | rejected => rfl
+    | panic s => rfl
+
+/-- **The stream parser consumes a prefix.**  For every legal operation history from an invariant
+state, the old unparsed bytes followed by everything fed equals what was interpreted followed by
+what is still unparsed: nothing is lost, duplicated or reordered, whatever the interleaving of
+`parse` (either destination), `consume_stream`, `compress`, `consume_output`, `set_stream`. -/
+theorem stream_consumes_prefix {p : Str.Parser} (hinv : SInv p) {ops : List Op}
+    (hl : LegalAll p ops) :
+    ∃ consumed, p.raw ++ fedBytes ops = consumed ++ (applyOps p ops).raw := by
+  induction ops generalizing p with
+  | nil => exact ⟨[], by simp [fedBytes]⟩
+  | cons op t ih =>
+    obtain ⟨h1, h2⟩ := hl
+    obtain ⟨hs, -⟩ := Str.step_safe hinv h1
+    obtain ⟨c2, hc2⟩ := ih hs h2
+    rw [Str.applyOps_cons]
+    cases op with
+    | parse new dest =>
+      obtain ⟨c1, hc1⟩ := C03S.bytes_conserved (p := p) (new := new) (dest := dest) hinv.1 h1.1 h1.2
+      refine ⟨c1 ++ c2, ?_⟩
+      simp only [fedBytes, applyOp] at hc2 ⊢
+      rw [← List.append_assoc, hc1, List.append_assoc, hc2, List.append_assoc]
+    | consumeStream amt => exact ⟨c2, hc2⟩
+    | compress => exact ⟨c2, hc2⟩
+    | consumeOutput amt => exact ⟨c2, hc2⟩
+    | setStream st =>
+      refine ⟨c2, ?_⟩
+      have := raw_frame p (.setStream st) (fun _ _ h => by cases h)
+      rw [this] at hc2
+      exact hc2
+
+/-- **The chain.**  A request parser `p0` is fed `cs` until it completes a request; it is converted
+into a stream parser; any legal history `ops` runs on that; the result is converted back.  Then the
+new request parser's unread input is a suffix of everything fed so far:
+`p0.input ++ fed₁ ++ fed₂ = consumed₁ ++ consumed₂ ++ rp.input`, where `consumed₁` is what the
+request parser interpreted for the preamble and `consumed₂` what the stream parser interpreted. -/
+theorem chain_suffix {p0 : Req.Parser} {cs : List Bytes} {r : Request} {sp : Str.Parser}
+    {ops : List Op} {rp : Req.Parser} (hp : PInv p0) (hl : C03.LegalFeed p0 cs)
+    (hd : (C03.feedAll p0 cs).1.state = .done r) (hid : r.id < 65536)
+    (hsp : (C03.feedAll p0 cs).1.intoStreamParser = .ok sp) (hops : LegalAll sp ops)
+    (hrp : (applyOps sp ops).intoRequestParser = some (.ok rp)) :
+    ∃ fed consumed₁ consumed₂,
+      cs = fed ++ (C03.feedAll p0 cs).2.2 ∧
+      p0.input ++ fed.flatten ++ fedBytes ops = consumed₁ ++ consumed₂ ++ rp.input ∧
+      p0.input ++ fed.flatten = consumed₁ ++ sp.raw ∧
+      sp.raw ++ fedBytes ops = consumed₂ ++ rp.input ∧
+      rp.cap = p0.cap ∧ rp.state = .header ∧ PInv rp := by
+  obtain ⟨fed, c1, hcs, hc1, -⟩ := C03.leftover_is_unread_suffix hp hl hd
+  rw [into_stream_parser_done hd] at hsp
+  cases hsp
+  -- the invariant travels along
+  have hfeed : ∀ (cs : List Bytes) (p : Req.Parser), PInv p → C03.LegalFeed p cs →
+      PInv (C03.feedAll p cs).1 ∧ (C03.feedAll p cs).1.cap = p.cap ∧
+        (C03.feedAll p cs).1.maxConns = p.maxConns := by
+    intro cs
+    induction cs with
+    | nil => intro p hp _; exact ⟨hp, rfl, rfl⟩
+    | cons c cs ih =>
+      intro p hp hl
+      cases hf : p.state.isFinal with
+      | true => rw [C03.feedAll_final hf]; exact ⟨hp, rfl, rfl⟩
+      | false =>
+        rcases hl with hl | ⟨-, hcn, hl⟩
+        · rw [hf] at hl; cases hl
+        obtain ⟨y, hy, hp'⟩ := C03.parse_total hp hcn
+        have hpar : p.parse c = ((p.parse c).1, some y) := by rw [← hy]
+        rw [C03.feedAll_cons cs hf hpar]
+        obtain ⟨a, b, c'⟩ := ih _ hp' hl
+        obtain ⟨e1, e2⟩ := C03.parse_cap hp hcn
+        exact ⟨a, b.trans e1, c'.trans e2⟩
+  obtain ⟨hp1, hcap1, -⟩ := hfeed cs p0 hp hl
+  have hsinv : SInv (Str.Parser.fromParser (C03.feedAll p0 cs).1.cap r (C03.feedAll p0 cs).1.input
+      (C03.feedAll p0 cs).1.maxConns) := C03S.fromParser_inv _ _ _ _ hp1.1 hid
+  obtain ⟨c2, hc2⟩ := stream_consumes_prefix hsinv hops
+  obtain ⟨hsinv', -⟩ := Str.trace_safe hsinv hops
+  have hcap' : (applyOps (Str.Parser.fromParser (C03.feedAll p0 cs).1.cap r
+      (C03.feedAll p0 cs).1.input (C03.feedAll p0 cs).1.maxConns) ops).cap =
+        (C03.feedAll p0 cs).1.cap := by
+    have : ∀ (ops : List Op) (q : Str.Parser), (applyOps q ops).cap = q.cap := by
+      intro ops
+      induction ops with
+      | nil => intro q; rfl
+      | cons op t ih =>
+        intro q
+        rw [Str.applyOps_cons, ih]
+        cases op with
+        | parse new dest => exact (Str.parse_frame q new dest).2.2.1
+        | consumeStream amt => rfl
+        | compress => rfl
+        | consumeOutput amt => rfl
+        | setStream st =>
+          simp only [applyOp]
+          cases hr : q.setStream st with
+          | ok p' =>
+            rcases Str.setStream_ok_cases hr with ⟨-, rfl⟩ | ⟨-, rfl, -⟩
+            · rfl
+            · rfl
+          | rejected => rfl
+          | panic s => rfl
+    rw [this]; rfl
+  obtain ⟨e1, e2, -, e4, e5, -, -⟩ := into_request_parser hsinv' (by rw [hcap']; exact hp1.2.2) hrp
+  refine ⟨fed, c1, c2, hcs, ?_, hc1, ?_, by rw [e2, hcap', hcap1], e4, e5⟩
+  · have hc2' : (C03.feedAll p0 cs).1.input ++ fedBytes ops = c2 ++ rp.input := by
+      rw [e1]; exact hc2
+    rw [hc1, List.append_assoc, hc2', List.append_assoc]
+  · rw [e1]; exact hc2
+
+/-! ## 3. Unread records of a finished request are skipped by the next request parser -/
+
+/-- A record the idle request parser must ignore without a reply: a known record type other than
+BeginRequest that is not a management GetValues — in particular every Stdin, Data, Params and
+AbortRequest record, whatever its request id (records of the finished request that the handler
+never read). -/
+def Stale (r : Rec) : Prop :=
+  r.WF ∧ RT.valid r.rtype.toNat = true ∧ r.rtype.toNat ≠ RT.beginRequest ∧
+    ¬ (r.rtype.toNat = RT.getValues ∧ r.id = 0)
+
+/-- Stdin, Data, Params, AbortRequest (and the output-direction types) are stale for any id. -/
+theorem stale_of_type {r : Rec} (hwf : r.WF)
+    (ht : r.rtype.toNat ∈ [RT.abortRequest, RT.endRequest, RT.params, RT.stdin, RT.stdout,
+      RT.stderr, RT.data, RT.getValuesResult, RT.unknown]) : Stale r := by
+  simp only [RT.abortRequest, RT.endRequest, RT.params, RT.stdin, RT.stdout, RT.stderr, RT.data,
+    RT.getValuesResult, RT.unknown, List.mem_cons, List.not_mem_nil, or_false] at ht
+  refine ⟨hwf, ?_, ?_, ?_⟩
+  · rcases ht with h | h | h | h | h | h | h | h | h <;> rw [h] <;> rfl
+  · rcases ht with h | h | h | h | h | h | h | h | h <;> rw [h] <;> decide
+  · rintro ⟨h9, -⟩
+    rcases ht with h | h | h | h | h | h | h | h | h <;> rw [h] at h9 <;> cases h9
+
+theorem owed_stale {r : Rec} (h : Stale r) (mc : Nat) : owed none mc r = [] := by
+  obtain ⟨-, hv, hb, hg⟩ := h
+  have h9 : (r.rtype.toNat == RT.getValues && r.id == 0) = false := by
+    cases hq : (r.rtype.toNat == RT.getValues && r.id == 0) with
+    | false => rfl
+    | true =>
+      simp only [Bool.and_eq_true, beq_iff_eq] at hq
+      exact absurd hq hg
+  have h1 : (r.rtype.toNat == RT.beginRequest) = false := by simpa using hb
+  simp [owed, hv, h9, h1]
+
+/-- **Stale records are skipped.**  A request parser waiting for a request (state `Header`) that
+finds a stale record at the head of its input consumes it entirely (header, content, padding),
+emits nothing, and carries on with what follows exactly as if the record had not been there. -/
+theorem stale_records_skipped (r : Rec) (h : Stale r) (rest : Bytes) (mc : Nat) :
+    run .header (r.ser ++ rest) mc = run .header rest mc := by
+  have hn : IdleNoise r := ⟨h.1, fun hb => absurd hb h.2.2.1⟩
+  have hl : rest ≠ [] ∨ ¬ EmptyGetValues r := Or.inr fun hg => h.2.2.2 ⟨hg.1, hg.2.1⟩
+  rw [header_noise r hn rest mc hl, owed_stale h, pre_nil]
+
+/-- Any number of them. -/
+theorem stale_all_skipped (rs : List Rec) (h : ∀ r ∈ rs, Stale r) (rest : Bytes) (mc : Nat) :
+    run .header (serAll rs ++ rest) mc = run .header rest mc := by
+  induction rs with
+  | nil => simp [serAll_nil]
+  | cons r rs ih =>
+    rw [serAll_cons, List.append_assoc,
+      stale_records_skipped r (h r (List.mem_cons_self ..)) _ mc]
+    exact ih fun x hx => h x (List.mem_cons_of_mem _ hx)
+
+/-- At the level of the parser object: a request parser created by `into_request_parser` whose
+handed-over input starts with stale records behaves, on its first `parse` call, exactly like a
+parser that was handed only the bytes after them (the result differs only in nothing:
+same output, same request / same state, same leftover). -/
+theorem stale_skipped_parse (cap mc : Nat) (rs : List Rec) (h : ∀ r ∈ rs, Stale r)
+    (rest new : Bytes) (hcap : 24 ≤ cap) (hlen : (serAll rs ++ rest ++ new).length ≤ cap) :
+    ((Req.Parser.fromParser cap (serAll rs ++ rest) mc).parse new).2 =
+        ((Req.Parser.fromParser cap rest mc).parse new).2 ∧
+    ((Req.Parser.fromParser cap (serAll rs ++ rest) mc).parse new).1.state =
+        ((Req.Parser.fromParser cap rest mc).parse new).1.state ∧
+    ((Req.Parser.fromParser cap (serAll rs ++ rest) mc).parse new).1.input =
+        ((Req.Parser.fromParser cap rest mc).parse new).1.input := by
+  have hl1 : (serAll rs ++ rest).length ≤ cap := by
+    simp only [List.length_append] at hlen ⊢; omega
+  have hl2 : rest.length ≤ cap := by simp only [List.length_append] at hlen; omega
+  have hp1 := C03.fromParser_inv (input := serAll rs ++ rest) mc hl1 hcap
+  have hp2 := C03.fromParser_inv (input := rest) mc hl2 hcap
+  have hn1 : new.length ≤ (Req.Parser.fromParser cap (serAll rs ++ rest) mc).free := by
+    simp only [Req.Parser.free, Req.Parser.fromParser, List.length_append] at hlen ⊢; omega
+  have hn2 : new.length ≤ (Req.Parser.fromParser cap rest mc).free := by
+    simp only [Req.Parser.free, Req.Parser.fromParser, List.length_append] at hlen ⊢; omega
+  have hrun : run .header (serAll rs ++ rest ++ new) mc = run .header (rest ++ new) mc := by
+    rw [List.append_assoc]; exact stale_all_skipped rs h _ mc
+  rw [parse_eq hp1 hn1, parse_eq hp2 hn2]
+  simp only [Req.Parser.fromParser, hrun]
+  exact ⟨rfl, rfl, rfl⟩
+
+/-! ## 4. Several requests on one connection -/
+
+/-- One turn of the connection loop with a handler that does not read its input streams: the
+request parser is given `new` (one `parse` call) and completes a request; it is converted into a
+stream parser; `Request::close` selects no stream (`set_stream(None)`; the parser is at a record
+boundary, so `record_boundary()` returns at once) and converts back.  Result: the request, the
+parser output of the call, and the next request parser. -/
+def turn (p : Req.Parser) (new : Bytes) : Option (Request × Bytes × Req.Parser) :=
+  match p.parse new with
+  | (p1, some y) =>
+    match p1.intoRequest, p1.intoStreamParser with
+    | .ok (r, _), .ok sp =>
+      match sp.setStream none with
+      | .ok sp' =>
+        match sp'.intoRequestParser with
+        | some (.ok rp) => some (r, y.output, rp)
+        | _ => none
+      | _ => none
+    | _, _ => none
+  | _ => none
+
+/-- `k` turns; all bytes are handed to the first call, the later calls find them in the buffer. -/
+def serve : Nat → Req.Parser → Bytes → List (Request × Bytes) × Req.Parser
+  | 0, p, _ => ([], p)
+  | k + 1, p, new =>
+    match turn p new with
+    | some (r, o, rp) => ((r, o) :: (serve k rp []).1, (serve k rp []).2)
+    | none => ([], p)
+
+/-- What a fresh parser makes of `w` alone: request, output, unread leftover. -/
+def fresh (cap mc : Nat) (w : Bytes) : Option (Request × Bytes × Bytes) :=
+  match (Req.Parser.fromParser cap [] mc).parse w with
+  | (p1, some y) =>
+    match p1.intoRequest with
+    | .ok (r, left) => some (r, y.output, left)
+    | _ => none
+  | _ => none
+
+/-- The unrestricted wish: whatever follows each preamble, the chain over `w₁ ++ … ++ w_k` yields
+the same requests and outputs as `k` fresh parsers on the `wᵢ`.  FALSE as stated — what follows a
+preamble may be a management `GetValues` record (the chain's next parser answers it: its output
+differs from the fresh parser's on `w_{i+1}`) or a `BeginRequest` for another id (the chain's next
+parser starts that request).  True when the tails are stale records: `k_requests_partial`. -/
+def k_requests_full : Prop :=
+  ∀ (cap mc : Nat) (ws : List Bytes), 24 ≤ cap → ws.flatten.length ≤ cap →
+    (∀ w ∈ ws, (fresh cap mc w).isSome = true) →
+    (serve ws.length (Req.Parser.fromParser cap [] mc) ws.flatten).1.map some =
+      ws.map fun w => (fresh cap mc w).map fun x => (x.1, x.2.1)
+
+/-- One request as sent by the client: the preamble bytes (which a parser turns into request `req`
+with output `out`, consuming them entirely) and the records of its input streams. -/
+structure Sent where
+  pre : Bytes
+  streams : List Rec
+  req : Request
+  out : Bytes
+
+def Sent.wire (s : Sent) : Bytes := s.pre ++ serAll s.streams
+
+def Sent.OK (s : Sent) (mc : Nat) : Prop :=
+  run .header s.pre mc = ⟨[], .done s.req, s.out, none⟩ ∧ ∀ r ∈ s.streams, Stale r
+
+/-- `run` over a preamble followed by anything: the request, and everything else left over. -/
+theorem run_pre_rest {pre rest o : Bytes} {r : Request} {mc : Nat}
+    (h : run .header pre mc = ⟨[], .done r, o, none⟩) :
+    run .header (pre ++ rest) mc = ⟨rest, .done r, o, none⟩ := by
+  by_cases hr : rest = []
+  · subst hr; rw [List.append_nil]; exact h
+  · rw [C03.run_split (st := .header) trivial pre rest mc hr, h]
+    simp only [List.nil_append]
+    rw [run_final rest mc rfl]
+    simp
+
+/-- One turn from a buffer that starts with stale records of the previous request. -/
+theorem turn_spec {cap mc : Nat} (hcap : 24 ≤ cap) (stale : List Rec) (hst : ∀ r ∈ stale, Stale r)
+    {inp new pre rest o : Bytes} {r : Request}
+    (hsplit : inp ++ new = serAll stale ++ (pre ++ rest)) (hlen : (inp ++ new).length ≤ cap)
+    (hpre : run .header pre mc = ⟨[], .done r, o, none⟩) :
+    turn (Req.Parser.fromParser cap inp mc) new = some (r, o, Req.Parser.fromParser cap rest mc) := by
+  have hl1 : inp.length ≤ cap := by simp only [List.length_append] at hlen; omega
+  have hp := C03.fromParser_inv (input := inp) mc hl1 hcap
+  have hn : new.length ≤ (Req.Parser.fromParser cap inp mc).free := by
+    simp only [Req.Parser.free, Req.Parser.fromParser, List.length_append] at hlen ⊢; omega
+  have hrun : run .header (inp ++ new) mc = ⟨rest, .done r, o, none⟩ := by
+    rw [hsplit, stale_all_skipped stale hst]; exact run_pre_rest hpre
+  have hparse : (Req.Parser.fromParser cap inp mc).parse new =
+      ({ cap := cap, input := rest, state := .done r, maxConns := mc },
+        some { done := true, output := o }) := by
+    rw [parse_eq hp hn]
+    simp only [Req.Parser.fromParser, hrun]
+    rfl
+  obtain ⟨q, hq, hq1, hq2, hq3, hq4, hq5⟩ : ∃ q,
+      (Str.Parser.fromParser cap r rest mc).setStream none = .ok q ∧ q.raw = rest ∧ q.cap = cap ∧
+        q.maxConns = mc ∧ q.isRecordBoundary = true ∧ q.output = [] := by
+    rw [Str.setStream_none]
+    by_cases h : (Str.Parser.fromParser cap r rest mc).stream = none
+    · rw [if_pos h]; exact ⟨_, rfl, rfl, rfl, rfl, rfl, rfl⟩
+    · rw [if_neg h]; exact ⟨_, rfl, rfl, rfl, rfl, rfl, rfl⟩
+  unfold turn
+  rw [hparse]
+  simp only [Req.Parser.intoRequest, Req.Parser.intoStreamParser, hq,
+    (into_request_parser_cases q).2.2 hq4 hq5, hq1, hq2, hq3]
+
+/-- Concatenation of the wires. -/
+def wires (ss : List Sent) : Bytes := (ss.map Sent.wire).flatten
+
+theorem serve_spec {cap mc : Nat} (hcap : 24 ≤ cap) :
+    ∀ (ss : List Sent) (stale : List Rec) (inp new : Bytes), (∀ r ∈ stale, Stale r) →
+      (∀ s ∈ ss, s.OK mc) → inp ++ new = serAll stale ++ wires ss → (inp ++ new).length ≤ cap →
+      (serve ss.length (Req.Parser.fromParser cap inp mc) new).1 = ss.map (fun s => (s.req, s.out)) ∧
+      (ss ≠ [] → (serve ss.length (Req.Parser.fromParser cap inp mc) new).2 =
+        Req.Parser.fromParser cap (serAll ((ss.getLast?.map Sent.streams).getD [])) mc) := by
+  intro ss
+  induction ss with
+  | nil => intro stale inp new _ _ _ _; exact ⟨rfl, fun h => absurd rfl h⟩
+  | cons s ss ih =>
+    intro stale inp new hst hok hsplit hlen
+    obtain ⟨hpre, hstr⟩ := hok s (List.mem_cons_self ..)
+    have hw : wires (s :: ss) = s.pre ++ (serAll s.streams ++ wires ss) := by
+      simp [wires, Sent.wire]
+    rw [hw] at hsplit
+    have ht := turn_spec hcap stale hst hsplit hlen hpre
+    have hlen' : ((serAll s.streams ++ wires ss) ++ ([] : Bytes)).length ≤ cap := by
+      have := congrArg List.length hsplit
+      simp only [List.length_append, List.length_nil] at this hlen ⊢
+      omega
+    obtain ⟨ih1, ih2⟩ := ih s.streams (serAll s.streams ++ wires ss) [] hstr
+      (fun x hx => hok x (List.mem_cons_of_mem _ hx)) (by simp) hlen'
+    simp only [List.length_cons, serve, ht, List.map_cons]
+    refine ⟨by rw [ih1], fun _ => ?_⟩
+    cases ss with
+    | nil => simp [serve, wires]
+    | cons s2 ss2 =>
+      rw [ih2 (by simp)]
+      simp
+
+/-- **k requests, streams unread.**  The client sends `k` requests back to back, each a preamble
+followed by input-stream records the handler never reads.  The chain of parser conversions over
+the whole byte string yields exactly the `k` requests (and outputs) that `k` fresh parsers yield on
+the individual wires, in order; the last parser is left holding exactly the last request's unread
+stream records. -/
+theorem k_requests_partial {cap mc : Nat} (hcap : 24 ≤ cap) (ss : List Sent)
+    (hok : ∀ s ∈ ss, s.OK mc) (hlen : (wires ss).length ≤ cap) :
+    (serve ss.length (Req.Parser.fromParser cap [] mc) (wires ss)).1 =
+        ss.map (fun s => (s.req, s.out)) ∧
+    (∀ s ∈ ss, fresh cap mc s.wire = some (s.req, s.out, serAll s.streams)) := by
+  refine ⟨(serve_spec hcap ss [] [] (wires ss) (fun _ h => by cases h) hok
+    (by simp [serAll_nil]) (by simpa using hlen)).1, fun s hs => ?_⟩
+  obtain ⟨hpre, -⟩ := hok s hs
+  have hle : s.wire.length ≤ (wires ss).length := by
+    obtain ⟨a, b, rfl⟩ := List.append_of_mem hs
+    simp [wires]; omega
+  have hp := C03.fromParser_inv (input := []) mc (Nat.zero_le _) hcap
+  have hn : s.wire.length ≤ (Req.Parser.fromParser cap [] mc).free := by
+    simp only [Req.Parser.free, Req.Parser.fromParser, List.length_nil]; omega
+  unfold fresh
+  rw [parse_eq hp hn]
+  simp only [Req.Parser.fromParser, List.nil_append, Sent.wire, run_pre_rest hpre]
+  rfl
+
+/-- The case `k = 2`, spelled out: `w₁ = pre₁ ++ streams₁`, `w₂ = pre₂ ++ streams₂`. -/
+theorem two_requests_partial {cap mc : Nat} (hcap : 24 ≤ cap) (s₁ s₂ : Sent) (h₁ : s₁.OK mc)
+    (h₂ : s₂.OK mc) (hlen : (s₁.wire ++ s₂.wire).length ≤ cap) :
+    (serve 2 (Req.Parser.fromParser cap [] mc) (s₁.wire ++ s₂.wire)).1 =
+      [(s₁.req, s₁.out), (s₂.req, s₂.out)] ∧
+    fresh cap mc s₁.wire = some (s₁.req, s₁.out, serAll s₁.streams) ∧
+    fresh cap mc s₂.wire = some (s₂.req, s₂.out, serAll s₂.streams) := by
+  have hok : ∀ s ∈ [s₁, s₂], s.OK mc := by
+    intro s hs
+    simp only [List.mem_cons, List.not_mem_nil, or_false] at hs
+    rcases hs with rfl | rfl <;> assumption
+  have hw : wires [s₁, s₂] = s₁.wire ++ s₂.wire := by simp [wires]
+  obtain ⟨a, b⟩ := k_requests_partial hcap [s₁, s₂] hok (by rw [hw]; exact hlen)
+  rw [hw] at a
+  exact ⟨a, b s₁ (by simp), b s₂ (by simp)⟩
+
 end Fcgi.C05
